@@ -349,6 +349,23 @@ pub fn run_incr_case(case: &Case, env: &Env, focus: &str) -> CaseOut {
             }
             if proj.ancestors(*u).iter().any(|a| failed.contains(a)) {
                 v("C05", "start-after-failed-ancestor", format!("step {} ran although a producer of its inputs failed", u));
+                v("C01", "start-after-failed-ancestor", format!("step {} ran although a producer of its inputs failed", u));
+            }
+        }
+        // C01 on real processes: in the commands' own log a step's `start` comes after the `ok` of every ancestor that ran
+        {
+            let events: Vec<(usize, &str)> = logtext.lines().filter_map(|l| l.split_once('\t')).map(|(u, w)| (u.parse().unwrap_or(usize::MAX), w)).collect();
+            for (i, (u, w)) in events.iter().enumerate() {
+                if *w != "start" {
+                    continue;
+                }
+                for a in proj.ancestors(*u) {
+                    let a_started = events.iter().position(|(x, w)| *x == a && *w == "start");
+                    let a_ok_before = events[..i].iter().any(|(x, w)| *x == a && *w == "ok");
+                    if a_started.is_some() && !a_ok_before && !failed.contains(&a) {
+                        v("C01", "started-before-producer-finished", format!("step {} started before its producer step {} had finished (order of the commands' own log lines)", u, a));
+                    }
+                }
             }
         }
         let expect_fail = !failed.is_empty();
